@@ -710,7 +710,7 @@ func TestC20(t *testing.T) {
 		return
 	}
 	r.CheckKnown(parts)
-	r.Rapid("trust", r.N(240, 4000), c20Prop)
-	r.Rapid("watcher", r.N(80, 1500), c20Watcher)
-	r.Rapid("shared-file", r.N(16, 200), c20Shared)
+	r.Rapid("trust", r.N(240, 12000), c20Prop)
+	r.Rapid("watcher", r.N(80, 4000), c20Watcher)
+	r.Rapid("shared-file", r.N(16, 600), c20Shared)
 }
